@@ -278,3 +278,17 @@ Example C19_loop_yield_iv_refuted :
   | Err _ => False
   end.
 Proof. vm_compute. repeat split; reflexivity. Qed.
+
+(* (4) once the groups are allocated and their registers reserved, the invariant also holds for the typing
+       `rebased` in which the group members gv count as pre-assigned their registers (this is what lets the
+       body walk (3) treat the carried block arguments like pre-assigned values). *)
+Theorem C19_loop_rebase_partial : forall c t0 (FR FR' : value -> Z -> Prop) gv a (L : value -> Prop) E (M : value -> Prop),
+  Inv c t0 FR L E M a ->
+  (forall v, In v gv -> M v) ->
+  (forall v, In v gv -> exists R, ty a v = Some R /\ is_reserved R (stk a) = true) ->
+  (zero_rule c = true -> forall v, In v gv -> ty a v <> Some 0) ->
+  (forall v r, FR v r -> FR' v r) ->
+  (forall v r, L v -> ty a v = Some r -> (exists w, In w gv /\ ty a w = Some r) -> FR' v r) ->
+  Inv c (rebased t0 gv a) FR' L E M a.
+Proof. exact rebase. Qed.
+Print Assumptions C19_loop_rebase_partial.
